@@ -83,6 +83,13 @@ def check_encoded(a, info):
     check_indexing(e, model, "EncodedSequence", info, a["picks"])
     if str(e) != seq or e.protein != protein or len(e.copy()) != len(model):
         raise Violation("EncodedSequence:str", "str()/protein/copy() differ from the input")
+    import copy as _copy
+    for what, c in (("copy()", e.copy()), ("copy.copy()", _copy.copy(e))):
+        if [c[i] for i in range(len(c))] != model or str(c) != seq or memoryview(c).tolist() != model:
+            raise Violation("EncodedSequence:copy", "%s does not hold the symbols of the original" % what)
+    # the method and the module-level function stripe the same way
+    wild = len(letters(protein)) - 1
+    striped_view_check(e.stripe(), model, wild, "EncodedSequence.stripe()", info)
     v = view_of(e, "EncodedSequence")
     if v.format != "B" or v.itemsize != 1 or v.ndim != 1 or v.tolist() != model:
         raise Violation("EncodedSequence:buffer", "view format=%r itemsize=%r ndim=%r does not expose the %d symbols" % (v.format, v.itemsize, v.ndim, len(model)))
@@ -125,6 +132,8 @@ def check_striped(a, info):
         pssm.calculate(s)
         striped_view_check(s, idx, wild, "StripedSequence(after calculate)", info)
     striped_view_check(s.copy(), idx, wild, "StripedSequence.copy()", info)
+    import copy as _copy
+    striped_view_check(_copy.copy(s), idx, wild, "copy.copy(StripedSequence)", info)
     del v1
     info.cls("empty", not idx)
     info.cls("view-after-reuse", bool(a["motifs"]))
